@@ -117,6 +117,15 @@ def build(desc):
         las.sections[title] = text
     if "index_unit" in desc:
         las.index_unit = desc["index_unit"]
+    # renames after the build (item.mnemonic = name stores the name verbatim, padding included)
+    for sec, pos, name in desc.get("rename", []):
+        section = las.sections.get(sec)
+        if section is None or isinstance(section, str) or len(section) == 0:
+            continue
+        keep = {"VERS", "WRAP", "DLM", "STRT", "STOP", "STEP", "NULL"}
+        cand = [it for it in list.__iter__(section) if it.original_mnemonic.upper() not in keep]
+        if cand:
+            cand[pos % len(cand)].mnemonic = name
     # deletions after the build: what is left keeps its (now stale) duplicate suffixes, e.g. GR:2, GR:3
     for sec, pos in desc.get("drop", []):
         section = las.sections.get(sec)
@@ -220,7 +229,7 @@ def disambiguated(las):
 
 def summary(desc, limit=900):
     parts = []
-    for key in ("transforms", "set", "version", "well", "params", "custom", "customtext", "index_unit", "drop"):
+    for key in ("transforms", "set", "version", "well", "params", "custom", "customtext", "index_unit", "drop", "rename"):
         if desc.get(key):
             parts.append("%s=%r" % (key, desc[key]))
     for c in desc.get("curves", []):
@@ -394,6 +403,9 @@ CUSTOM_TITLES = ["Tops", "Drilling_Definition", "SPECIAL INFORMATION", "extra"]
 def las_desc(draw, inf=False, max_items=4, max_curves=5, max_rows=6, p_text=4, p_empty=1, custom=True,
              set_defaults=True, index_unit=True, collide=True, drops=False, extra_kinds=()):
     d = {}
+    if drops and roll(draw, 4) == 0:
+        d["rename"] = [[draw(st.sampled_from(["Well", "Parameter", "Curves"])), draw(st.integers(0, 5)),
+                        draw(st.sampled_from([" GR ", "GR  ", "  ", "\t", " x", "NEW", "gr"]))]]
     if drops and roll(draw, 3) == 0:
         d["drop"] = [[draw(st.sampled_from(["Well", "Parameter", "Curves", "Version"])), draw(st.integers(0, 5))]
                      for _ in range(draw(st.integers(1, 2)))]
